@@ -365,8 +365,8 @@ class Summariser:
         if not static and not bound:
             return None
         nrets = sum(isinstance(n, ast.Return) for n in ast.walk(fi.node))
-        if nrets < 2:
-            return None
+        if nrets < 2 or any(isinstance(n, (ast.For, ast.While, ast.Try, ast.With)) for n in ast.walk(fi.node)):
+            return None        # only straight-line helpers (branches and comprehensions); anything with loops or handlers stays a call
         probe = st.fork()
         args = [self.expr(a, probe) for a in call.args]
         kws = [(k.arg, self.expr(k.value, probe)) for k in call.keywords]
